@@ -1093,30 +1093,6 @@ impl<'a> C13Obs<'a> {
                             }
                         }
                     }
-                    if self.fresh_thread {
-                        let bytes = with[..flen].to_vec();
-                        let got = std::thread::spawn(move || match real_new(&bytes) {
-                            Ok(Ok(f3)) => msg_brief_full(&real_message(&f3).1),
-                            _ => String::from("<not a frame>"),
-                        })
-                        .join()
-                        .unwrap_or_else(|_| String::from("<thread panicked>"));
-                        self.evals += 1;
-                        if got != want {
-                            let cut = |s: &String| if s.len() > 70 { format!("{}..", &s[..70]) } else { s.clone() };
-                            return Err(Violation::new(
-                                "C13",
-                                "C13.c",
-                                format!(
-                                    "delivery at abs {} ({} bytes): decoded in stream order it gave {}, decoded first thing on a fresh thread it gives {}",
-                                    base + rs,
-                                    flen,
-                                    cut(&want),
-                                    cut(&got)
-                                ),
-                            ));
-                        }
-                    }
                 }
                 self.decoded.push((base + rs, with[..flen].to_vec(), want));
             }
@@ -1337,7 +1313,48 @@ fn judge_c13(trace: &StreamTrace, mut stats: Option<&mut Stats>) -> Option<Viola
             // frames again, each parsed alone and in REVERSE order, must give the same messages
             // (a decoder that carried something over from the previously decoded frame would not)
             let mut bad = None;
+            // runs with a frame family: the same reverse pass once more on ONE fresh thread (its
+            // thread-local state is pristine for the first frame it decodes, i.e. the last one
+            // delivered, and differs from the stream-order context for all others)
+            if fresh_thread && !decoded.is_empty() {
+                let frames: Vec<Vec<u8>> = decoded.iter().rev().take(16).map(|(_, b, _)| b.clone()).collect();
+                let got: Vec<String> = std::thread::Builder::new()
+                    .stack_size(2 << 20)
+                    .spawn(move || {
+                        frames
+                            .iter()
+                            .map(|b| match real_new(b) {
+                                Ok(Ok(f)) => msg_brief_full(&real_message(&f).1),
+                                _ => String::from("<not a frame>"),
+                            })
+                            .collect::<Vec<String>>()
+                    })
+                    .ok()
+                    .and_then(|h| h.join().ok())
+                    .unwrap_or_default();
+                for ((off, bytes, want), g) in decoded.iter().rev().take(16).zip(got.iter()) {
+                    evals += 1;
+                    if g != want && g != "<not a frame>" {
+                        let cut = |s: &String| if s.len() > 70 { format!("{}..", &s[..70]) } else { s.clone() };
+                        bad = Some(Violation::new(
+                            "C13",
+                            "C13.c",
+                            format!(
+                                "frame delivered at abs {} ({} bytes): decoded in stream order it gave {}, decoded on a fresh thread (after the later frames only) it gives {}",
+                                off,
+                                bytes.len(),
+                                cut(want),
+                                cut(g)
+                            ),
+                        ));
+                        break;
+                    }
+                }
+            }
             for (off, bytes, want) in decoded.iter().rev() {
+                if bad.is_some() {
+                    break;
+                }
                 evals += 1;
                 let got = match real_new(bytes) {
                     Ok(Ok(f)) => msg_brief_full(&real_message(&f).1),
